@@ -158,6 +158,11 @@ def rule_faults():
         "sub": "mo@undef", "deref": {"mov": [{"$deref": {"main_reg": "@undef"}}]}, "in_or": {"$or": ["@undef", "mov"]},
         "key_none": {"@undef": None},
     }
+    # the undefined name in other spellings (digit first, symbol-like, DSL words)
+    for sp in ("@2_nops", "@64bit_reg", "@got_load", "@plt", "@times", "@X.y-z"):
+        for pn, item in (("item", sp), ("operand", {"mov": [sp]}), ("key_times", {sp: {"times": 1}})):
+            F.append((f"undef_macro_{pn}_withdefs_sp{sp}", lambda d, item=item: _set(_set(d, ["pattern"], [item] + copy.deepcopy(d["pattern"])), ["macros"],
+                                                                                  (d.get("macros") or []) + [{"name": "@zz", "pattern": "ret"}])))
     for pn, item in undefined_positions.items():
         F.append((f"undef_macro_{pn}", with_item(item)))
         F.append((f"undef_macro_{pn}_withdefs", lambda d, item=item: _set(_set(d, ["pattern"], [item] + copy.deepcopy(d["pattern"])), ["macros"],
